@@ -71,7 +71,7 @@ def reject_is_failure(rj):
 # repro programs of repaired defects of this family: compiled against the current tree, must exit 0
 CORPUS = {
     "C01": [("f6_stacked_basic_wait.c", [[]]), ("f14_reused_sched_stale_finish.c", [[]])],
-    "C06": [("f3_blocked_count_migration.c", [[]]), ("f14_reused_sched_stale_finish.c", [[]]), ("f14b_reused_replaced_sched.c", [[]])],
+    "C06": [("f3_blocked_count_migration.c", [[]]), ("f14_reused_sched_stale_finish.c", [[]]), ("f14b_reused_replaced_sched.c", [[]]), ("f14c_reused_replaced_sched_replaced_again.c", [[]])],
     "C11": [("f13_suspend_to_state.c", [[]])],
     "C12": [("f13_suspend_to_state.c", [[]])],
 }
